@@ -28,6 +28,7 @@
    whole small scope and `-simulate` draws random documents of a larger scope from the same rules:
      Init              chooses the number of top-level blocks
      Choose            draws the kind of the next block (KindWheel)
+     ChooseAtom        draws the kind of the next atom (AtomWheel)
      StartPara/StartAtx(number of atoms), AddAtom    build a leaf with inline content atom by atom
      AddLeaf           fence / icode / them / html from LeafPool
      OpenQuote(n kids), OpenList(item sizes)         containers; they close when their planned children
@@ -54,16 +55,20 @@ CONSTANTS MaxBlocks,    \* top-level blocks
           MaxDepth,     \* container nesting
           MaxInl,       \* atoms of a paragraph / heading
           MaxNodes,     \* blocks in a document (leaves + containers)
+          MaxAtoms,     \* atoms in a document (all paragraphs and headings together)
           AtomPool, JoinSet, LeafPool, Indents, QuoteShapes, ListShapes, AtxShapes, Trails,
-          KindWheel     \* sequence of block kinds "para" "atx" "leaf" "quote" "list", with multiplicity
+          KindWheel,    \* sequence of block kinds "para" "atx" "leaf" "quote" "list", with multiplicity
+          AtomWheel     \* sequence of atom kinds, with multiplicity
 
 VARIABLES stack,   \* frames of open containers, root first
           cur,     \* leaf with inline content under construction, or NoLeaf
           want,    \* kind of the next block, drawn by Choose ("" = not drawn)
+          wantA,   \* kind of the next atom, drawn by ChooseAtom ("" = not drawn)
           nodes,   \* blocks created so far
+          atoms,   \* atoms planned so far
           fin      \* <<>> while building; <<[doc, trail]>> when finished
 
-vars == <<stack, cur, want, nodes, fin>>
+vars == <<stack, cur, want, wantA, nodes, atoms, fin>>
 
 -----------------------------------------------------------------------------
 (* strings *)
@@ -325,7 +330,9 @@ Depth     == Len(stack) - 1
 Init == /\ \E nb \in 1..MaxBlocks : stack = <<Frame(RootBlk, nb, <<>>)>>
         /\ cur = NoLeaf
         /\ want = ""
+        /\ wantA = ""
         /\ nodes = 0
+        /\ atoms = 0
         /\ fin = <<>>
 
 (* the kind of the next block is drawn first (KindWheel lists kinds with multiplicity: in
@@ -334,21 +341,25 @@ Choose == /\ Idle /\ want = ""
           /\ \E i \in DOMAIN KindWheel :
                /\ (KindWheel[i] \in {"quote", "list"} => Depth < MaxDepth)
                /\ want' = KindWheel[i]
-          /\ UNCHANGED <<stack, cur, nodes, fin>>
+          /\ UNCHANGED <<stack, cur, wantA, nodes, atoms, fin>>
 
 StartPara == /\ Idle /\ want = "para"
              /\ \E ind \in Indents, n \in 1..MaxInl :
                   /\ CanPlace(Para(ind, <<>>))
+                  /\ atoms + n <= MaxAtoms
                   /\ cur' = [blk |-> Para(ind, <<>>), left |-> n]
+                  /\ atoms' = atoms + n
              /\ want' = ""
-             /\ UNCHANGED <<stack, nodes, fin>>
+             /\ UNCHANGED <<stack, wantA, nodes, fin>>
 
 StartAtx == /\ Idle /\ want = "atx"
             /\ \E ind \in Indents, sh \in AtxShapes, n \in 1..MaxInl :
                  /\ CanPlace(Atx(ind, sh.lvl, sh.closer, <<>>))
+                 /\ atoms + n <= MaxAtoms
                  /\ cur' = [blk |-> Atx(ind, sh.lvl, sh.closer, <<>>), left |-> n]
+                 /\ atoms' = atoms + n
             /\ want' = ""
-            /\ UNCHANGED <<stack, nodes, fin>>
+            /\ UNCHANGED <<stack, wantA, nodes, fin>>
 
 AtomOK(l, a, last) ==
   /\ (l.k = "atx" => (a.k # "br" /\ (~last => a.j # "nl") /\ InlLineCount(<<a>>) = 1))
@@ -356,8 +367,14 @@ AtomOK(l, a, last) ==
   /\ (l.inl # <<>> => LET q == l.inl[Len(l.inl)] IN
                         /\ ~(IsEmph(q) /\ IsEmph(a) /\ q.j = "none")
                         /\ (a.k = "br" => (q.k # "br" /\ q.j # "nl")))   \* a line of two spaces is blank
-AddAtom == /\ Building /\ cur.blk.k # "none"
-           /\ \E a0 \in AtomPool, j \in JoinSet :
+ChooseAtom == /\ Building /\ cur.blk.k # "none" /\ wantA = ""
+              /\ \E i \in DOMAIN AtomWheel :
+                   /\ (AtomWheel[i] = "br" => (cur.blk.k = "para" /\ cur.blk.inl # <<>> /\ cur.left > 1))
+                   /\ wantA' = AtomWheel[i]
+              /\ UNCHANGED <<stack, cur, want, nodes, atoms, fin>>
+
+AddAtom == /\ Building /\ cur.blk.k # "none" /\ wantA # ""
+           /\ \E a0 \in {x \in AtomPool : x.k = wantA}, j \in JoinSet :
                 LET last == cur.left = 1
                     a    == IF a0.k = "br" THEN a0 ELSE J(a0, j)
                     blk2 == [cur.blk EXCEPT !.inl = Append(@, a)]
@@ -369,17 +386,17 @@ AddAtom == /\ Building /\ cur.blk.k # "none"
                            /\ nodes' = nodes + 1
                       ELSE /\ cur' = [blk |-> blk2, left |-> cur.left - 1]
                            /\ UNCHANGED <<stack, nodes>>
-           /\ UNCHANGED <<fin, want>>
+           /\ wantA' = ""
+           /\ UNCHANGED <<fin, want, atoms>>
 
 AddLeaf == /\ Idle /\ want = "leaf"
            /\ \E b0 \in LeafPool, ind \in Indents :
-                LET b == IF b0.k = "icode" THEN b0 ELSE [b0 EXCEPT !.ind = ind] IN
-                /\ (b0.k = "icode" => ind = 0)
+                LET b == IF b0.k = "icode" THEN b0 ELSE [b0 EXCEPT !.ind = ind] IN   \* icode has no indentation of its own
                 /\ CanPlace(b)
                 /\ stack' = Settle(AddKid(stack, b))
                 /\ nodes' = nodes + 1
            /\ want' = ""
-           /\ UNCHANGED <<cur, fin>>
+           /\ UNCHANGED <<cur, wantA, atoms, fin>>
 
 OpenQuote == /\ Idle /\ want = "quote" /\ Depth < MaxDepth
              /\ \E sh \in QuoteShapes, n \in 0..MaxKids :
@@ -389,7 +406,7 @@ OpenQuote == /\ Idle /\ want = "quote" /\ Depth < MaxDepth
                   /\ stack' = Settle(Append(stack, Frame(b, n, <<>>)))
                   /\ nodes' = nodes + 1
              /\ want' = ""
-             /\ UNCHANGED <<cur, fin>>
+             /\ UNCHANGED <<cur, wantA, atoms, fin>>
 
 RECURSIVE Plans(_)
 Plans(n) == IF n = 0 THEN {<<>>} ELSE {<<k>> \o p : k \in 0..MaxKids, p \in Plans(n - 1)}
@@ -403,13 +420,13 @@ OpenList == /\ Idle /\ want = "list" /\ Depth < MaxDepth
                    /\ stack' = Settle(Append(stack, Frame(b, Head(plan), Tail(plan))))
                    /\ nodes' = nodes + 1
             /\ want' = ""
-            /\ UNCHANGED <<cur, fin>>
+            /\ UNCHANGED <<cur, wantA, atoms, fin>>
 
 Finish == /\ Building /\ cur.blk.k = "none" /\ Len(stack) = 1 /\ Top.need = 0
           /\ \E tr \in Trails : fin' = <<[doc |-> Top.kids, trail |-> tr]>>
-          /\ UNCHANGED <<stack, cur, nodes, want>>
+          /\ UNCHANGED <<stack, cur, nodes, atoms, want, wantA>>
 
-Next == Choose \/ StartPara \/ StartAtx \/ AddAtom \/ AddLeaf \/ OpenQuote \/ OpenList \/ Finish
+Next == Choose \/ ChooseAtom \/ StartPara \/ StartAtx \/ AddAtom \/ AddLeaf \/ OpenQuote \/ OpenList \/ Finish
 Spec == Init /\ [][Next]_vars
 
 -----------------------------------------------------------------------------
@@ -429,7 +446,9 @@ TypeOK == /\ Len(stack) >= 1 /\ Len(stack) <= MaxDepth + 1
           /\ cur.blk.k \in {"none", "para", "atx"}
           /\ cur.left >= 0 /\ (cur.blk.k # "none" => cur.left >= 1)
           /\ want \in {"", "para", "atx", "leaf", "quote", "list"}
+          /\ wantA \in {""} \cup {AtomWheel[i] : i \in DOMAIN AtomWheel}
           /\ nodes \in 0..MaxNodes
+          /\ atoms \in 0..MaxAtoms
           /\ Len(fin) <= 1
 
 PartialOK == \* every prefix of a document obeys the placement rules and the bounds
